@@ -1,5 +1,5 @@
 """C18 -- secp256k1 point arithmetic equals the textbook group law."""
-from .. import constants, curvemachine, euclid, grouptrace
+from .. import constants, curvemachine, euclid, grouptrace, mulrec
 from . import c07
 
 
@@ -12,3 +12,4 @@ def run(ctx):
     # into the plain and the Jacobian API of a private secp256k1 copy
     curvemachine.run_exhaustive(ctx, only_secp=True)
     curvemachine.run_machine(ctx, only_secp=True)
+    mulrec.checks(ctx, only_secp=True)      # jacobian_multiply's recursion (scalar reduction, halving), call by call
